@@ -78,6 +78,54 @@ func canonFloat(f float64) string {
 	return strconv.FormatFloat(f, 'g', -1, 64)
 }
 
+// canonTyped is canonValue with numbers of fields declared Float compared at float32 precision
+// (ggql's Float is a float32: whether a default has already been coerced to it is not a
+// property of the schema).
+func canonTyped(t ggql.Type, v interface{}) string {
+	return canonValue(roundFloat32(t, v))
+}
+
+func roundFloat32(t ggql.Type, v interface{}) interface{} {
+	switch tt := t.(type) {
+	case *ggql.NonNull:
+		return roundFloat32(tt.Base, v)
+	case *ggql.List:
+		if l, ok := v.([]interface{}); ok {
+			out := make([]interface{}, len(l))
+			for i, e := range l {
+				out[i] = roundFloat32(tt.Base, e)
+			}
+			return out
+		}
+	case *ggql.Input:
+		if m, ok := v.(map[string]interface{}); ok {
+			out := map[string]interface{}{}
+			for k, e := range m {
+				out[k] = e
+				for _, f := range tt.Fields() {
+					if f.Name() == k {
+						out[k] = roundFloat32(f.Type, e)
+					}
+				}
+			}
+			return out
+		}
+	}
+	if t != nil && t.Name() == "Float" {
+		switch f := v.(type) {
+		case float64:
+			return float64(float32(f))
+		case float32:
+			return float64(f)
+		case int64:
+			return float64(float32(f))
+		case int32:
+			return float64(float32(f))
+		}
+	}
+	return v
+}
+
 // DescribeOpts tunes the canonical description.
 type DescribeOpts struct {
 	FillDefaults bool // fill a directive use's missing arguments from the definition's defaults
@@ -92,15 +140,23 @@ func describeUses(root *ggql.Root, dus []*ggql.DirectiveUse, o DescribeOpts) str
 			name = du.Directive.Name()
 		}
 		args := map[string]string{}
+		var decl map[string]*ggql.Arg
+		if d, ok := du.Directive.(*ggql.Directive); ok {
+			decl = dirArgs(d)
+		}
 		for k, av := range du.Args {
 			if av != nil && av.Value != nil {
-				args[k] = canonValue(av.Value)
+				var at ggql.Type
+				if a := decl[k]; a != nil {
+					at = a.Type
+				}
+				args[k] = canonTyped(at, av.Value)
 			}
 		}
-		if d, ok := du.Directive.(*ggql.Directive); ok && o.FillDefaults {
-			for an, a := range dirArgs(d) {
+		if o.FillDefaults {
+			for an, a := range decl {
 				if _, has := args[an]; !has && a.Default != nil {
-					args[an] = canonValue(a.Default)
+					args[an] = canonTyped(a.Type, a.Default)
 				}
 			}
 		}
@@ -125,7 +181,7 @@ func describeUses(root *ggql.Root, dus []*ggql.DirectiveUse, o DescribeOpts) str
 func describeArgs(root *ggql.Root, args []*ggql.Arg, o DescribeOpts) []string {
 	var out []string
 	for _, a := range args {
-		s := fmt.Sprintf("      arg %s: %s default=%s desc=%q dirs=[%s]", a.Name(), typeString(a.Type), canonValue(a.Default), a.Description(), describeUses(root, a.Dirs, o))
+		s := fmt.Sprintf("      arg %s: %s default=%s desc=%q dirs=[%s]", a.Name(), typeString(a.Type), canonTyped(a.Type, a.Default), a.Description(), describeUses(root, a.Dirs, o))
 		out = append(out, s)
 	}
 	sort.Strings(out)
@@ -189,7 +245,7 @@ func Describe(root *ggql.Root, o DescribeOpts) string {
 			sort.Strings(lines)
 		case *ggql.Input:
 			for _, f := range tt.Fields() {
-				lines = append(lines, fmt.Sprintf("    input-field %s: %s default=%s desc=%q dirs=[%s]", f.Name(), typeString(f.Type), canonValue(f.Default), f.Description(), describeUses(root, f.Dirs, o)))
+				lines = append(lines, fmt.Sprintf("    input-field %s: %s default=%s desc=%q dirs=[%s]", f.Name(), typeString(f.Type), canonTyped(f.Type, f.Default), f.Description(), describeUses(root, f.Dirs, o)))
 			}
 			sort.Strings(lines)
 		}
